@@ -466,3 +466,48 @@ Proof.
     + destruct (svc_blocked _ _); simpl; try (left; apply SAME);
         try (destruct (svc_shutdown _ _) as [acts ok]; try destruct ok; simpl; left; apply SAME).
 Qed.
+
+(* ---- provider level: every REGISTERED provider is shut down exactly as often as the resolver ------- *)
+Lemma pcount_app f l1 l2 : pcount f (l1 ++ l2) = pcount f l1 + pcount f l2.
+Proof. unfold pcount. now rewrite filter_app, app_length. Qed.
+
+Lemma pcount_shut_map p b l : pcount (is_pshut p) (map (fun q => PShutdown q b) l) = cnt p l.
+Proof.
+  induction l as [|x l IH]; auto. simpl. unfold pcount in *. simpl. rewrite cnt_cons.
+  destruct (Nat.eqb p x); simpl; rewrite IH; reflexivity.
+Qed.
+
+Lemma pcount_none p (h : nat -> pevent) l : (forall x, is_pshut p (h x) = false) -> pcount (is_pshut p) (map h l) = 0.
+Proof. intros H. induction l as [|x l IH]; auto. unfold pcount in *. simpl. now rewrite H. Qed.
+
+Lemma expand_provider_count t p log :
+  pcount (is_pshut p) (expand t log) = if p <? 1 + n_aux t then count is_prov_shut log else 0.
+Proof.
+  remember (1 + n_aux t) as n eqn:En.
+  induction log as [|a log IH].
+  - change (pcount (is_pshut p) (expand t [])) with 0. change (count is_prov_shut []) with 0. destruct (p <? n); reflexivity.
+  - change (expand t (a :: log)) with (expand1 t a ++ expand t log).
+    rewrite pcount_app, IH, count_cons.
+    assert (pcount (is_pshut p) (expand1 t a) = if is_prov_shut a then (if p <? n then 1 else 0) else 0) as ->.
+    { destruct a; try reflexivity.
+      - cbn [expand1 is_prov_shut]. apply pcount_none. reflexivity.
+      - cbn [expand1 is_prov_shut]. destruct ok; [apply pcount_none; reflexivity|reflexivity].
+      - cbn [expand1 is_prov_shut]. rewrite pcount_shut_map. unfold providers. rewrite <- En. apply cnt_seq0. }
+    destruct (is_prov_shut a); destruct (p <? n); lia.
+Qed.
+
+Lemma each_provider_once_l t o ls :
+  (forall p, pcount (is_pshut p) (expand t (snd (run o init ls))) <= 1) /\
+  (forall s log, run o init ls = (s, log) -> st_pc s = PDone DStopped ->
+     forall p, pcount (is_pshut p) (expand t log) = if p <? 1 + n_aux t then 1 else 0) /\
+  (forall s log k, run o init ls = (s, log) -> st_pc s = PDone k -> k <> DStopped ->
+     forall p, pcount (is_pshut p) (expand t log) = 0).
+Proof.
+  split; [|split].
+  - intros p. rewrite expand_provider_count. pose proof (provider_once_l o ls). destruct (p <? _); lia.
+  - intros s log E EP p. rewrite expand_provider_count.
+    destruct (stopped_run_l o ls s log E EP) as [_ [H _]]. now rewrite H.
+  - intros s log k E EP NK p. rewrite expand_provider_count.
+    destruct (finished_run_l o ls s log k E EP) as [_ [_ [_ [_ H]]]]. destruct (H NK) as [H0 _]. rewrite H0.
+    destruct (p <? _); reflexivity.
+Qed.
